@@ -197,7 +197,7 @@ def run(ctx):
             cfg = "%s/wf_%d_%d.cfg" % (ctx.tmp, nn, mm)
             with open(cfg, "w") as f:
                 f.write("SPECIFICATION Spec\nCONSTANTS\n  N = %d\n  M = %d\n  Copies = {1, 2, 3}\nINVARIANT Confluence\nINVARIANT FinalIsFunctionOfSet\nINVARIANT ExactlyWhenEnough\nINVARIANT SameSetSameResult\nPROPERTY Monotone\n" % (nn, mm))
-            r = ctx.mc_expect_ok("psbt/Workflow.tla", cfg, what="signing workflow confluence", timeout=3000)
+            r = ctx.mc_expect_ok("psbt/Workflow.tla", cfg, what="signing workflow confluence", timeout=7200)
         ctx.exhaustive.append("Workflow: all interleavings of Sign / Combine / Finalize over 3 copies for m-of-n up to n = %d" % (3 if q else 4))
     if not ctx.want("cases"):
         return
@@ -219,7 +219,7 @@ def run(ctx):
     for c in cases:
         ctx.nontriv((c["id"].split("_")[0], c["label"], c.get("res", c.get("accepted", ""))))
     ctx.sample({k: v for k, v in cases[0].items() if k in ("id", "kind", "nsigs", "label")})
-    bad = ctx.validate("psbt/C10Cases.tla", [{k: v for k, v in c.items() if k != "label"} for c in cases], "C10Cases.cfg", timeout=3000, per_shard_min=8)
+    bad = ctx.validate("psbt/C10Cases.tla", [{k: v for k, v in c.items() if k != "label"} for c in cases], "C10Cases.cfg", timeout=7200, per_shard_min=8)
     for cid, why in bad.items():
         c = byid[cid]
         ctx.violation("%s:%s:%s:%s" % (c["kind"], why, c["label"], cid.split("_")[0]), "%s case %s: %s" % (c["kind"], cid, why),
